@@ -109,6 +109,47 @@ pub fn run(ctx: &Ctx, walk: bool) -> i32 {
             );
         }
     }
+    // C04 only: the file-backed entry point (read_file) on the small families
+    if !walk {
+        let pool = Pool::new("checked", 16, 30.0);
+        for fam in &fams {
+            let small = fam.name == "M5-tiny" || fam.name == "M3-inconsistent" || fam.name == "M7-program" || fam.name == "M2-field-b2" || fam.name == "M2-field-b4" || fam.name == "M4-prefix-b1" || (thorough && fam.name.starts_with("M2-field-b"));
+            if !small {
+                continue;
+            }
+            let fname = format!("{}@read_file", fam.name);
+            if !ctx.wants_family(&fname) {
+                continue;
+            }
+            let only_idx: Option<usize> = ctx.only.as_ref().and_then(|(_, c)| c.strip_prefix("idx=").and_then(|r| r.split(' ').next()).and_then(|s| s.parse().ok()));
+            let indices: Vec<usize> = match only_idx {
+                Some(i) if i < fam.n => vec![i],
+                Some(_) => vec![],
+                None => (0..fam.n).collect(),
+            };
+            ctx.family(&fname, indices.len() as u64, &format!("{} [written to a temporary file and loaded with AsepriteFile::read_file]", fam.what), true);
+            pool.run(
+                indices.len(),
+                &|k| (worker::KIND_LOAD_FILE, 4u64 << 30, (fam.gen)(indices[k])),
+                &|k, bytes, r: TaskResult| {
+                    let i = indices[k];
+                    let sig = worker::status_sig(&r);
+                    ctx.eval(1);
+                    ctx.outcome(hash64(&(&fname, &sig)));
+                    if !matches!(r.status, Status::Ok | Status::Err) {
+                        ctx.violation(Violation {
+                            family: fname.clone(),
+                            case: format!("idx={} {}", i, (fam.label)(i)),
+                            sig,
+                            detail: format!("read_file: {:?}: {}", r.status, r.msg),
+                            bytes: if bytes.len() <= 300_000 { Some(bytes.to_vec()) } else { None },
+                            extra: json!({"route": "read_file"}),
+                        });
+                    }
+                },
+            );
+        }
+    }
     ctx.set_extra("inputs_that_loaded", json!(loaded.load(Relaxed)));
     ctx.set_extra("inputs_refused_with_an_error_value", json!(refused.load(Relaxed)));
     ctx.sample(json!({"family": "M2-field-b1", "case": "b1 frame[0].chunk[15].cel_layer#0=65535", "meaning": "base b1 with the layer index field of its first cel chunk overwritten with 65535 (no size recomputation)"}));
